@@ -233,6 +233,6 @@ def shard(ctx, shard_no, nshards, n, n_proc):
 
 def run(ctx):
     if ctx.tier == 'quick':
-        core.run_sharded(ctx, __name__, 'shard', 1, (400, 15))
+        core.run_sharded(ctx, __name__, 'shard', 4, (120, 4))
     else:
         core.run_sharded(ctx, __name__, 'shard', getattr(ctx, 'shards_override', None) or 16, (3000, 40))
